@@ -383,6 +383,29 @@ macro_rules! fixed_width {
                 }
             }
 
+            /// near-worst-case pairs of the divstep iteration (table `vh::worst_divsteps::WORST`): about 2.7 divsteps per
+            /// bit, against 2.07 for random operands - an iteration budget that is too small shows only here
+            pub fn worst(cx: &mut Cx) {
+                for (it, (bits, _, fh, gh)) in vh::worst_divsteps::WORST.iter().enumerate() {
+                    if (*bits as usize).div_ceil(64) != N && !(N == 3 && *bits <= 66) { continue; }
+                    let (f, g) = (fit(hexv(fh), N), fit(hexv(gh), N));
+                    let md = Md { m: f.clone(), f: f.clone() };
+                    any_forms(cx, &g, &md);
+                    odd_forms(cx, it, &g, &md);
+                    for (a, b) in [(&f, &g), (&g, &f)] {
+                        let (ua, ub) = (u::<N>(a), u::<N>(b));
+                        let gq = |x: Uint<N>| O::ok().n("g", &w(&x));
+                        cx.call(ev_gcd("uint.gcd", N, a, b), || gq(ua.gcd(&ub)));
+                        cx.call(ev_gcd("uint.Gcd.gcd", N, a, b), || gq(<Uint<N> as Gcd>::gcd(&ua, &ub)));
+                        cx.call(ev_gcd("uint.Gcd.gcd_vartime", N, a, b), || gq(<Uint<N> as Gcd>::gcd_vartime(&ua, &ub)));
+                        if a[0] & 1 == 1 {
+                            let oa = odd::<N>(a).unwrap();
+                            cx.call(ev_gcd("odd.gcd_vartime", N, a, b), || gq(oa.gcd_vartime(&ub)));
+                        }
+                    }
+                }
+            }
+
             pub fn gcd(cx: &mut Cx, iters: usize) {
                 for it in 0..iters {
                     let (mut a, mut b) = gcd_pair(&mut cx.rng, N);
@@ -525,6 +548,38 @@ fn boxed_forms(cx: &mut Cx, n: usize, a: &[u64], md: &Md, it: usize) {
     }
 }
 
+/// little-endian words of a hex numeral
+fn hexv(h: &str) -> Vec<u64> {
+    let b = h.as_bytes();
+    let mut v = Vec::new();
+    let mut end = b.len();
+    while end > 0 {
+        let start = end.saturating_sub(16);
+        v.push(u64::from_str_radix(std::str::from_utf8(&b[start..end]).unwrap(), 16).unwrap());
+        end = start;
+    }
+    v
+}
+
+fn boxed_worst(cx: &mut Cx) {
+    for (it, (bits, _, fh, gh)) in vh::worst_divsteps::WORST.iter().enumerate() {
+        let n = (*bits as usize).div_ceil(64);
+        let (f, g) = (fit(hexv(fh), n), fit(hexv(gh), n));
+        let md = Md { m: f.clone(), f: f.clone() };
+        boxed_forms(cx, n, &g, &md, it);
+        for (a, b) in [(&f, &g), (&g, &f)] {
+            let (ba, bb) = (bx(a), bx(b));
+            let gq = |x: BoxedUint| O::ok().n("g", &wb(&x)).i("gp", x.bits_precision() as i64);
+            cx.call(ev_gcd("boxed.Gcd.gcd", n, a, b), || gq(ba.gcd(&bb)));
+            cx.call(ev_gcd("boxed.Gcd.gcd_vartime", n, a, b), || gq(ba.gcd_vartime(&bb)));
+            if a[0] & 1 == 1 {
+                let oa = oddb(a).unwrap();
+                cx.call(ev_gcd("boxed_odd.Gcd.gcd", n, a, b), || gq(<Odd<BoxedUint> as Gcd<BoxedUint>>::gcd(&oa, &bb)));
+            }
+        }
+    }
+}
+
 fn boxed_sweep(cx: &mut Cx, n: usize) {
     for k in sweep_ks(&mut cx.rng, n) {
         let md = even_modulus(&mut cx.rng, n, k);
@@ -599,6 +654,11 @@ fn main() {
         w32::inv(&mut cx, 8 * s);
     }
     if cx.want("alias") { all_aliases(&mut cx); }
+    if cx.want("worst") {
+        w1::worst(&mut cx); w2::worst(&mut cx); w3::worst(&mut cx); w4::worst(&mut cx); w6::worst(&mut cx); w8::worst(&mut cx);
+        w16::worst(&mut cx); w32::worst(&mut cx);
+        boxed_worst(&mut cx);
+    }
     if cx.want("m1") {
         w1::m1(&mut cx, s);
         w2::m1(&mut cx, s);
